@@ -291,7 +291,7 @@ def batch_text(cases, idxs):
     return "\n".join(parts) + "\n"
 
 
-def run_both(ctx, cases, exe, component, jobs=16, timeout=600, c_env=None):
+def run_both(ctx, cases, exe, component, jobs=16, timeout=600, c_env=None, stall_s=None):
     """run all cases through the implementation harness and the model driver; returns
     (c_out: {i: lines}, m_out: {i: lines}, crashes: {i: text})"""
     n = len(cases)
@@ -308,7 +308,7 @@ def run_both(ctx, cases, exe, component, jobs=16, timeout=600, c_env=None):
             # a crash ends the process: record it for the last case begun and continue after it
             restarts = 0
             while todo:
-                rc, out, _ = run_stream([exe], batch_text(cases, todo), timeout, c_env, stall_s=getattr(ctx.p, "STALL_S", 120))
+                rc, out, _ = run_stream([exe], batch_text(cases, todo), timeout, c_env, stall_s=stall_s or getattr(ctx.p, "STALL_S", 120))
                 got = _split_cases(out)
                 for k, v in got.items():
                     res[("c", int(k))] = v
@@ -426,7 +426,8 @@ def correspondence_stage(ctx, cases=None, exe=None):
         ctx.cov["samples"].append("; ".join(c.ops)[:600])
 
     def rerun(case):
-        co, mo, cr = run_both(ctx, [case], exe, component, jobs=1, timeout=120, c_env=getattr(p, "C_ENV", None))
+        co, mo, cr = run_both(ctx, [case], exe, component, jobs=1, timeout=120, c_env=getattr(p, "C_ENV", None),
+                              stall_s=getattr(p, "RERUN_STALL_S", 30))   # a single case that is silent for 30 s hangs
         return co.get(0, []), mo.get(0, []), cr.get(0)
 
     reported = 0
